@@ -98,7 +98,7 @@ PROPS = {
 
 
 NOT_YET = {}
-HOOK_COMMITS = ["a4c436d"]
+HOOK_COMMITS = ["a4c436d", "2885aa3"]
 
 
 def sh(cmd, timeout=3000, cwd=None, env=None):
